@@ -43,5 +43,15 @@ def HMAC(hid, blk):
     )
 
 
-HARNESSES = [MD(256), MD(1), MD(512), MD(5, tier_hash="thorough"), HMAC(5, 64), HMAC(1, 64), HMAC(256, 64), HMAC(384, 128)]
+GCM = dict(
+    name="gcm_ctr", src="gcm_ctr.c", checks=COMMON["MEMCHECKS"],
+    renames={"crypto/symmetric/aesGCM.c": ["psGhashUpdate"]},
+    functions=["psAesEncryptGCMx", "psAesEncryptGCM", "psAesDecryptGCMtagless"], sources=["crypto/symmetric/aesGCM.c"],
+    assumptions=["gcm_ctr: psAesEncryptBlock is a stub returning arbitrary keystream blocks and logging the counter block; psGhashUpdate is a logging stub; (OutputBufferCount, length, direction, in-place) enumerated"],
+    unwind=40,
+    cases=[dict(name="obc%d_n%d_d%d_ip%d" % (o, n, d, ip), tier=("quick" if (n in (1, 16, 17, 33) and o in (0, 5, 16) and ip == 0) or (n == 17 and o == 5) else "thorough"),
+                defs={"VF_OBC": o, "VF_NN": n, "VF_DIR": d, "VF_INPLACE": ip})
+           for o in (0, 1, 5, 15, 16) for n in (1, 5, 15, 16, 17, 32, 33, 37) for d in (0, 1) for ip in (0, 1)],
+)
+HARNESSES = [GCM, MD(256), MD(1), MD(512), MD(5, tier_hash="thorough"), HMAC(5, 64), HMAC(1, 64), HMAC(256, 64), HMAC(384, 128)]
 PROPERTY = dict(level="model_checking", explanation="", bounds="", outside="", assumptions=[])
